@@ -138,10 +138,16 @@ Qed.
 
 Definition all_files (M : mstate) : Prop := forall k v, lookup_m k M = Some v -> exists p, v = MFile p.
 
+Definition init_path (p : path) : bool := is_init_name (last (snd p) "").
+
+(* every parent on the way is present AND is a package (__init__ module) *)
 Fixpoint prefixes_present (M : mstate) (cur todo : list string) : bool :=
   match todo with
   | [] => true
-  | p :: r => match lookup_m (cur ++ [p]) M with Some _ => prefixes_present M (cur ++ [p]) r | None => false end
+  | p :: r => match lookup_m (cur ++ [p]) M with
+              | Some (MFile f) => init_path f && prefixes_present M (cur ++ [p]) r
+              | _ => false
+              end
   end.
 
 Lemma goc_regular : forall todo M cur k mfp, all_files M ->
@@ -150,7 +156,8 @@ Proof.
   induction todo as [|p r IH]; intros M cur k mfp HM; simpl.
   - rewrite app_nil_r. auto.
   - destruct (lookup_m (cur ++ [p]) M) as [[q|ps]|] eqn:E.
-    + rewrite IH by auto. rewrite <- app_assoc. simpl. auto.
+    + unfold init_path. destruct (is_init_name (last (snd q) "")); simpl; auto.
+      rewrite IH by auto. rewrite <- app_assoc. simpl. auto.
     + apply HM in E. destruct E as [q E]. discriminate.
     + destruct (lookup_m cur M) as [[q|ps]|] eqn:E2; auto.
       apply HM in E2. destruct E2 as [q E2]. discriminate.
@@ -218,19 +225,22 @@ Qed.
 (* ---- the declarative description ---- *)
 Definition cand (k : list string) (e : entry) : bool := lstr_eqb (e_parts e) k && entry_ok e.
 Definition cands (k : list string) (E : list entry) : list entry := filter (cand k) E.
-Definition has_cand (E : list entry) (k : list string) : bool := existsb (cand k) E.
 Definition pickseq (l : list entry) : option path := fold_left (fun o e => Some (merge_path o (e_abs e))) l None.
+
+(* the name q is taken by a package: the merge of its candidate files is an __init__ module *)
+Definition init_at (E : list entry) (q : list string) : bool :=
+  match pickseq (cands q E) with Some p => init_path p | None => false end.
 
 Fixpoint chain (E : list entry) (cur todo : list string) : bool :=
   match todo with
   | [] => true
-  | p :: r => has_cand E (cur ++ [p]) && chain E (cur ++ [p]) r
+  | p :: r => init_at E (cur ++ [p]) && chain E (cur ++ [p]) r
   end.
 
 Definition spec_lookup (top : path) (E : list entry) (k : list string) : option minfo :=
   match k with
   | [] => Some (MFile top)
-  | _ => if chain E [] k then option_map MFile (pickseq (cands k E)) else None
+  | _ => if chain E [] (removelast k) then option_map MFile (pickseq (cands k E)) else None
   end.
 
 Definition sorted (E : list entry) : Prop :=
@@ -251,11 +261,11 @@ Proof.
 Qed.
 
 Lemma chain_ext : forall E1 E2 todo cur,
-  (forall j, 0 < j <= List.length todo -> has_cand E1 (cur ++ firstn j todo) = has_cand E2 (cur ++ firstn j todo)) ->
+  (forall j, 0 < j <= List.length todo -> cands (cur ++ firstn j todo) E1 = cands (cur ++ firstn j todo) E2) ->
   chain E1 cur todo = chain E2 cur todo.
 Proof.
   induction todo as [|p r IH]; intros cur H; simpl; auto.
-  pose proof (H 1) as H1. simpl in H1. rewrite H1 by lia. f_equal.
+  pose proof (H 1) as H1. simpl in H1. unfold init_at. rewrite H1 by lia. f_equal.
   apply IH. intros j Hj. specialize (H (S j)). simpl in H. rewrite <- !app_assoc. simpl. apply H. lia.
 Qed.
 
@@ -270,44 +280,23 @@ Qed.
 Lemma pickseq_snoc : forall l e, pickseq (l ++ [e]) = Some (merge_path (pickseq l) (e_abs e)).
 Proof. intros. unfold pickseq. rewrite fold_left_app. auto. Qed.
 
-Lemma has_cand_cands : forall E k, has_cand E k = negb (match cands k E with [] => true | _ => false end).
-Proof.
-  induction E; intros; simpl; auto. unfold cands, has_cand in *. simpl.
-  destruct (cand k a); simpl; auto.
-Qed.
-
-Lemma has_cand_snoc : forall E e q, has_cand (E ++ [e]) q = has_cand E q || cand q e.
-Proof. intros. unfold has_cand. rewrite existsb_app. simpl. rewrite orb_false_r. auto. Qed.
-
 Lemma cands_snoc : forall E e q, cands q (E ++ [e]) = cands q E ++ (if cand q e then [e] else []).
 Proof. intros. unfold cands. rewrite filter_app. simpl. destruct (cand q e); auto. Qed.
 
-Lemma chain_last : forall E k, k <> [] -> chain E [] k = chain E [] (removelast k) && has_cand E k.
-Proof.
-  intros E k Hk. rewrite <- (removelast_last k Hk) at 1. rewrite chain_app. simpl.
-  rewrite removelast_last by auto. rewrite andb_true_r. auto.
-Qed.
-
-(* is_some (spec_lookup k) = chain k *)
-Lemma spec_lookup_some : forall top E k, (match spec_lookup top E k with Some _ => true | None => false end) = chain E [] k.
-Proof.
-  intros. destruct k as [|a r]; auto. unfold spec_lookup.
-  destruct (chain E [] (a :: r)) eqn:C; auto.
-  rewrite chain_last in C by discriminate. apply andb_true_iff in C. destruct C as [_ C].
-  rewrite has_cand_cands in C. destruct (cands (a :: r) E) eqn:Ec; try discriminate.
-  destruct (pickseq (e :: l)) eqn:P; auto. apply pickseq_nil_iff in P. discriminate.
-Qed.
+Lemma spec_lookup_ne : forall top E k, k <> [] ->
+  spec_lookup top E k = if chain E [] (removelast k) then option_map MFile (pickseq (cands k E)) else None.
+Proof. intros top E k H. destruct k; [congruence|reflexivity]. Qed.
 
 Lemma prefixes_present_chain : forall top E M,
   (forall k, lookup_m k M = spec_lookup top E k) ->
   forall todo cur, chain E [] cur = true -> prefixes_present M cur todo = chain E cur todo.
 Proof.
   intros top E M HM. induction todo as [|p r IH]; intros cur Hc; simpl; auto.
-  pose proof (spec_lookup_some top E (cur ++ [p])) as Hs. rewrite <- HM in Hs.
-  rewrite chain_app in Hs. rewrite Hc in Hs. simpl in Hs. rewrite andb_true_r in Hs.
-  destruct (lookup_m (cur ++ [p]) M).
-  - rewrite <- Hs. simpl. apply IH. rewrite chain_app. rewrite Hc. simpl. rewrite <- Hs. auto.
-  - rewrite <- Hs. auto.
+  rewrite HM. rewrite spec_lookup_ne by (destruct cur; discriminate).
+  rewrite List.removelast_last, Hc. unfold init_at.
+  destruct (pickseq (cands (cur ++ [p]) E)) as [f|] eqn:Ep; simpl; auto.
+  destruct (init_path f) eqn:Ei; simpl; auto.
+  apply IH. rewrite chain_app, Hc. simpl. unfold init_at. rewrite Ep, Ei. reflexivity.
 Qed.
 
 Definition M0 (top : path) : mstate := [([], MFile top)].
@@ -325,30 +314,28 @@ Lemma lstr_eqb_length : forall a b, lstr_eqb a b = true -> List.length a = List.
 Proof. intros a b H. apply lstr_eqb_eq in H. subst. auto. Qed.
 
 Lemma spec_same_cands : forall top E1 E2 k,
-  (forall q, has_cand E1 q = has_cand E2 q) -> cands k E1 = cands k E2 ->
-  spec_lookup top E1 k = spec_lookup top E2 k.
+  (forall q, cands q E1 = cands q E2) -> spec_lookup top E1 k = spec_lookup top E2 k.
 Proof.
-  intros top E1 E2 k Hh Hc. destruct k as [|a r]; auto. unfold spec_lookup.
+  intros top E1 E2 k Hc. destruct k as [|a r]; auto. unfold spec_lookup.
   rewrite Hc. rewrite (chain_ext E1 E2); auto.
 Qed.
 
 Lemma spec_not_ok : forall top E e k, entry_ok e = false -> spec_lookup top (E ++ [e]) k = spec_lookup top E k.
 Proof.
-  intros. apply spec_same_cands.
-  - intro q. rewrite has_cand_snoc, cand_not_ok; auto. apply orb_false_r.
-  - rewrite cands_snoc, cand_not_ok; auto. apply app_nil_r.
+  intros. apply spec_same_cands. intro q. rewrite cands_snoc, cand_not_ok; auto. apply app_nil_r.
 Qed.
 
-Lemma chain_removelast_same : forall E e,
-  e_parts e <> [] ->
-  chain (E ++ [e]) [] (removelast (e_parts e)) = chain E [] (removelast (e_parts e)).
+(* keys shorter than the parts of e keep their candidates *)
+Lemma cands_snoc_shorter : forall E e q, List.length q <> List.length (e_parts e) -> cands q (E ++ [e]) = cands q E.
 Proof.
-  intros E e Hne. apply chain_ext. intros j Hj. simpl.
-  rewrite has_cand_snoc. unfold cand.
-  destruct (lstr_eqb (e_parts e) (firstn j (removelast (e_parts e)))) eqn:Eq.
-  - apply lstr_eqb_length in Eq. rewrite firstn_length in Eq.
-    pose proof (length_removelast _ Hne). lia.
-  - simpl. apply orb_false_r.
+  intros E e q H. rewrite cands_snoc. unfold cand.
+  destruct (lstr_eqb (e_parts e) q) eqn:Eq. apply lstr_eqb_length in Eq. congruence. simpl. apply app_nil_r.
+Qed.
+
+Lemma chain_shorter_same : forall E e k,
+  List.length k < List.length (e_parts e) -> chain (E ++ [e]) [] k = chain E [] k.
+Proof.
+  intros E e k H. apply chain_ext. intros j Hj. simpl. apply cands_snoc_shorter. rewrite firstn_length. lia.
 Qed.
 
 Lemma spec_other : forall top E e k,
@@ -361,26 +348,18 @@ Proof.
     - simpl. apply app_nil_r. }
   unfold spec_lookup. rewrite Hc.
   destruct (cands (a :: r) E) as [|x l] eqn:Ec.
-  - change (pickseq []) with (@None path). destruct (chain (E ++ [e]) [] (a :: r)), (chain E [] (a :: r)); reflexivity.
+  - change (pickseq []) with (@None path).
+    destruct (chain (E ++ [e]) [] (removelast (a :: r))), (chain E [] (removelast (a :: r))); reflexivity.
   - assert (Hx : In x (cands (a :: r) E)) by (rewrite Ec; left; auto).
     unfold cands in Hx. apply filter_In in Hx. destruct Hx as [HxE Hxc].
     unfold cand in Hxc. apply andb_true_iff in Hxc. destruct Hxc as [Hxp _]. apply lstr_eqb_eq in Hxp.
     apply sorted_snoc in Hs. destruct Hs as [_ Hle]. specialize (Hle x HxE). unfold depth in Hle. rewrite Hxp in Hle.
-    rewrite (chain_ext (E ++ [e]) E); auto.
-    intros j Hj. simpl. rewrite has_cand_snoc. unfold cand.
-    destruct (lstr_eqb (e_parts e) (firstn j (a :: r))) eqn:Eq.
-    + exfalso. pose proof (lstr_eqb_length _ _ Eq) as Hlen. rewrite firstn_length in Hlen.
-      assert (j = List.length (a :: r)) by lia. subst j. rewrite firstn_all in Eq.
-      apply lstr_eqb_eq in Eq. congruence.
-    + simpl. apply orb_false_r.
+    rewrite chain_shorter_same; auto.
+    pose proof (length_removelast (a :: r)) as Hl. specialize (Hl ltac:(discriminate)). lia.
 Qed.
 
-Lemma file_of_spec : forall top E k, k <> [] ->
-  file_of (spec_lookup top E k) = if chain E [] k then pickseq (cands k E) else None.
-Proof.
-  intros top E k Hk. destruct k; [congruence|]. unfold spec_lookup.
-  destruct (chain E [] (s :: k)); auto. destruct (pickseq (cands (s :: k) E)); auto.
-Qed.
+Lemma file_of_map : forall o : option path, file_of (option_map MFile o) = o.
+Proof. destruct o; reflexivity. Qed.
 
 Theorem run_spec : forall top E,
   sorted E -> (forall e, In e E -> e_parts e <> []) ->
@@ -389,7 +368,9 @@ Proof.
   intros top E. induction E as [|e E IH] using rev_ind; intros Hs Hne.
   - split.
     + intros k v H. unfold run, M0 in H. simpl in H. destruct k; inversion H. eauto.
-    + intros k. unfold run, M0. simpl. destruct k; auto.
+    + intros k. unfold run, M0. destruct k as [|c k]. reflexivity.
+      unfold spec_lookup. change (cands (c :: k) []) with (@nil entry). change (pickseq []) with (@None path).
+      destruct (chain [] [] (removelast (c :: k))); reflexivity.
   - pose proof (sorted_snoc _ _ Hs) as [HsE _].
     assert (HneE : forall x, In x E -> e_parts x <> []) by (intros; apply Hne; apply in_or_app; auto).
     destruct (IH HsE HneE) as [Haf Hlk]. clear IH.
@@ -398,34 +379,22 @@ Proof.
     set (M := fold_left (load_entry false) E (M0 top)) in *.
     rewrite load_entry_regular by auto.
     rewrite (prefixes_present_chain top E M Hlk) by auto.
+    assert (Hrl : chain (E ++ [e]) [] (removelast (e_parts e)) = chain E [] (removelast (e_parts e))).
+    { apply chain_shorter_same. pose proof (length_removelast _ Hpe). lia. }
     destruct (entry_ok e) eqn:Hok; simpl.
     + destruct (chain E [] (removelast (e_parts e))) eqn:Hpp.
       * split. apply set_member_all_files; auto.
         intro k. destruct (lstr_eqb k (e_parts e)) eqn:Ek.
         -- apply lstr_eqb_eq in Ek. subst k.
            rewrite set_member_lookup_same by auto. rewrite Hlk.
-           rewrite file_of_spec by auto.
-           destruct (e_parts e) as [|a r] eqn:Epe; [congruence|]. rewrite <- Epe in *.
-           replace (spec_lookup top (E ++ [e]) (e_parts e)) with
-             (if chain (E ++ [e]) [] (e_parts e) then option_map MFile (pickseq (cands (e_parts e) (E ++ [e]))) else None)
-             by (rewrite Epe; reflexivity).
-           rewrite (chain_last (E ++ [e])) by auto. rewrite chain_removelast_same by auto. rewrite Hpp.
-           rewrite has_cand_snoc. unfold cand. rewrite lstr_eqb_refl, Hok. rewrite orb_true_r. simpl.
+           rewrite !spec_lookup_ne by auto. rewrite Hrl, Hpp. rewrite file_of_map.
            rewrite cands_snoc. unfold cand. rewrite lstr_eqb_refl, Hok. simpl.
-           rewrite pickseq_snoc. simpl.
-           rewrite (chain_last E) by auto. rewrite Hpp. simpl.
-           rewrite has_cand_cands. destruct (cands (e_parts e) E); simpl; auto.
+           rewrite pickseq_snoc. reflexivity.
         -- apply lstr_eqb_neq in Ek. rewrite set_member_lookup_other by auto.
            rewrite Hlk. symmetry. apply spec_other; auto.
       * split; auto. intro k. rewrite Hlk.
         destruct (lstr_eqb k (e_parts e)) eqn:Ek.
-        -- apply lstr_eqb_eq in Ek. subst k.
-           destruct (e_parts e) as [|a r] eqn:Epe; [congruence|]. rewrite <- Epe in *.
-           assert (forall E', spec_lookup top E' (e_parts e) =
-                     if chain E' [] (e_parts e) then option_map MFile (pickseq (cands (e_parts e) E')) else None) as Hunf
-             by (intro; rewrite Epe; reflexivity).
-           rewrite !Hunf. rewrite (chain_last (E ++ [e])), (chain_last E) by auto.
-           rewrite chain_removelast_same by auto. rewrite Hpp. auto.
+        -- apply lstr_eqb_eq in Ek. subst k. rewrite !spec_lookup_ne by auto. rewrite Hrl, Hpp. reflexivity.
         -- apply lstr_eqb_neq in Ek. symmetry. apply spec_other; auto.
     + split; auto. intro k. rewrite Hlk. symmetry. apply spec_not_ok. auto.
 Qed.
@@ -519,28 +488,30 @@ Definition no_clash (E : list entry) : Prop :=
   forall a b, In a E -> In b E -> entry_ok a = true -> entry_ok b = true -> e_parts a = e_parts b ->
               is_pyi a = is_pyi b -> e_abs a = e_abs b.
 
-Lemma has_cand_same : forall E1 E2 q, same_elems E1 E2 -> has_cand E1 q = has_cand E2 q.
+Lemma pick_same_elems : forall E1 E2 q, same_elems E1 E2 -> no_clash E1 ->
+  pickseq (cands q E1) = pickseq (cands q E2).
 Proof.
-  intros E1 E2 q H. unfold has_cand.
-  destruct (existsb (cand q) E1) eqn:A; destruct (existsb (cand q) E2) eqn:B; auto.
-  - apply existsb_exists in A. destruct A as (x & Hx & Hc).
-    assert (existsb (cand q) E2 = true) by (apply existsb_exists; exists x; split; auto; apply H; auto). congruence.
-  - apply existsb_exists in B. destruct B as (x & Hx & Hc).
-    assert (existsb (cand q) E1 = true) by (apply existsb_exists; exists x; split; auto; apply H; auto). congruence.
+  intros E1 E2 q Hs Hn. apply pickseq_same.
+  - intros x y Hx Hy Hp. unfold cands in Hx, Hy. apply filter_In in Hx, Hy.
+    destruct Hx as [Hx Hcx], Hy as [Hy Hcy]. unfold cand in Hcx, Hcy.
+    apply andb_true_iff in Hcx, Hcy. destruct Hcx as [Px Ox], Hcy as [Py Oy].
+    apply lstr_eqb_eq in Px, Py. apply Hn; auto. congruence.
+  - intro x. unfold cands. rewrite !filter_In. split; intros [Hx Hc]; split; auto; apply Hs; auto.
+Qed.
+
+Lemma chain_pick_ext : forall E1 E2, (forall q, pickseq (cands q E1) = pickseq (cands q E2)) ->
+  forall todo cur, chain E1 cur todo = chain E2 cur todo.
+Proof.
+  intros E1 E2 H. induction todo as [|p r IH]; intros cur; simpl; auto.
+  unfold init_at. rewrite H, IH. reflexivity.
 Qed.
 
 Theorem spec_order_invariant : forall top E1 E2,
   same_elems E1 E2 -> no_clash E1 -> forall k, spec_lookup top E1 k = spec_lookup top E2 k.
 Proof.
   intros top E1 E2 Hs Hn k. destruct k as [|a r]; auto. unfold spec_lookup.
-  rewrite (chain_ext E1 E2) by (intros; apply has_cand_same; auto).
-  destruct (chain E2 [] (a :: r)); auto. f_equal.
-  apply pickseq_same.
-  - intros x y Hx Hy Hp. unfold cands in Hx, Hy. apply filter_In in Hx, Hy.
-    destruct Hx as [Hx Hcx], Hy as [Hy Hcy]. unfold cand in Hcx, Hcy.
-    apply andb_true_iff in Hcx, Hcy. destruct Hcx as [Px Ox], Hcy as [Py Oy].
-    apply lstr_eqb_eq in Px, Py. apply Hn; auto. congruence.
-  - intro x. unfold cands. rewrite !filter_In. split; intros [Hx Hc]; split; auto; apply Hs; auto.
+  rewrite (chain_pick_ext E1 E2) by (intro; apply pick_same_elems; auto).
+  rewrite (pick_same_elems E1 E2); auto.
 Qed.
 
 Theorem run_order_invariant : forall top E1 E2,
@@ -787,38 +758,38 @@ Definition yields (base : path) (rel : list string) (e : entry) : Prop :=
   | _ => False
   end.
 
+(* since dot-files are skipped, iterating the files of a portion never fails *)
+Lemma iter_files_total : forall base skip files seen, exists es s, iter_files base skip files seen = Ok (es, s).
+Proof.
+  induction files as [|rel r IH]; intros seen; simpl. eauto.
+  destruct (mem_lstr (removelast rel) skip). apply IH.
+  destruct (name_to_yield rel).
+  - apply IH.
+  - destruct (IH (seen ++ [removelast rel])) as (es & s & ->). eauto.
+  - destruct (IH seen) as (es & s & ->). eauto.
+Qed.
+
 Lemma iter_files_noskip : forall base files seen,
   match iter_files base [] files seen with
-  | Ok (es, _) => (forall rel, In rel files -> name_to_yield rel <> YErr) /\
-                  (forall e, In e es <-> exists rel, In rel files /\ yields base rel e)
-  | Err x => x = "ValueError" /\ exists rel, In rel files /\ name_to_yield rel = YErr
+  | Ok (es, _) => forall e, In e es <-> exists rel, In rel files /\ yields base rel e
+  | Err _ => False
   end.
 Proof.
   intros base files. induction files as [|rel r IH]; intros seen; simpl.
-  - split. intros ? []. intros e. split. intros []. intros (rel & [] & _).
-  - unfold yields in *. destruct (name_to_yield rel) as [|parts|parts|] eqn:Ey.
-    + specialize (IH seen). destruct (iter_files base [] r seen) as [[es s]|x].
-      * destruct IH as [H1 H2]. split.
-        -- intros rel' [<-|H]; auto. congruence.
-        -- intro e. rewrite H2. split; intros (rel' & Hr & Hy).
-           ++ exists rel'. auto.
-           ++ destruct Hr as [<-|Hr]. rewrite Ey in Hy. contradiction. eauto.
-      * destruct IH as [H1 (rel' & Hr & Hy)]. split; auto. exists rel'. auto.
-    + specialize (IH (seen ++ [removelast rel])). destruct (iter_files base [] r (seen ++ [removelast rel])) as [[es s]|x].
-      * destruct IH as [H1 H2]. split.
-        -- intros rel' [<-|H]; auto. congruence.
-        -- intro e. simpl. rewrite H2. split.
-           ++ intros [<-|(rel' & Hr & Hy)]. exists rel. rewrite Ey. auto. exists rel'. auto.
-           ++ intros (rel' & [<-|Hr] & Hy). rewrite Ey in Hy. auto. right. eauto.
-      * destruct IH as [H1 (rel' & Hr & Hy)]. split; auto. exists rel'. auto.
-    + specialize (IH seen). destruct (iter_files base [] r seen) as [[es s]|x].
-      * destruct IH as [H1 H2]. split.
-        -- intros rel' [<-|H]; auto. congruence.
-        -- intro e. simpl. rewrite H2. split.
-           ++ intros [<-|(rel' & Hr & Hy)]. exists rel. rewrite Ey. auto. exists rel'. auto.
-           ++ intros (rel' & [<-|Hr] & Hy). rewrite Ey in Hy. auto. right. eauto.
-      * destruct IH as [H1 (rel' & Hr & Hy)]. split; auto. exists rel'. auto.
-    + split; auto. exists rel. auto.
+  - intros e. split. intros []. intros (rel & [] & _).
+  - unfold yields in *. destruct (name_to_yield rel) as [|parts|parts] eqn:Ey.
+    + specialize (IH seen). destruct (iter_files base [] r seen) as [[es s]|x]; auto.
+      intro e. rewrite IH. split; intros (rel' & Hr & Hy).
+      * exists rel'. auto.
+      * destruct Hr as [<-|Hr]. rewrite Ey in Hy. contradiction. eauto.
+    + specialize (IH (seen ++ [removelast rel])). destruct (iter_files base [] r (seen ++ [removelast rel])) as [[es s]|x]; auto.
+      intro e. simpl. rewrite IH. split.
+      * intros [<-|(rel' & Hr & Hy)]. exists rel. rewrite Ey. auto. exists rel'. auto.
+      * intros (rel' & [<-|Hr] & Hy). rewrite Ey in Hy. auto. right. eauto.
+    + specialize (IH seen). destruct (iter_files base [] r seen) as [[es s]|x]; auto.
+      intro e. simpl. rewrite IH. split.
+      * intros [<-|(rel' & Hr & Hy)]. exists rel. rewrite Ey. auto. exists rel'. auto.
+      * intros (rel' & [<-|Hr] & Hy). rewrite Ey in Hy. auto. right. eauto.
 Qed.
 
 Section NodeInd.
@@ -892,22 +863,19 @@ Proof.
   - pose proof (portion_files_perm U U' d Hp Hw) as Hf.
     pose proof (iter_files_noskip d (portion_files U d) []) as H1.
     pose proof (iter_files_noskip d (portion_files U' d) []) as H2.
-    destruct (iter_files d [] (portion_files U d) []) as [[es s]|x];
-    destruct (iter_files d [] (portion_files U' d) []) as [[es' s']|x'].
-    + destruct H1 as [_ H1], H2 as [_ H2]. simpl.
-      assert (Hse : same_elems es es').
-      { intro e. rewrite H1, H2. split; intros (rel & Hr & Hy); exists rel; split; auto; apply Hf; auto. }
-      apply (run_order_invariant p (depth_sort es) (depth_sort es')).
-      * apply depth_sort_sorted.
-      * apply depth_sort_sorted.
-      * intros e He. apply (proj1 (depth_sort_In _ _)) in He. apply (proj1 (H1 e)) in He. destruct He as (rel & Hr & Hy).
-        eapply yields_parts_nonempty; eauto. unfold portion_files in Hr.
-        destruct (node_at U d); [|contradiction]. eapply walk_nonempty; eauto.
-      * intro e. rewrite !depth_sort_In. apply Hse.
-      * specialize (Hnc es eq_refl). intros x y Hx Hy. apply (proj1 (depth_sort_In _ _)) in Hx. apply (proj1 (depth_sort_In _ _)) in Hy. apply Hnc; auto.
-    + exfalso. destruct H1 as [H1 _]. destruct H2 as [_ (rel & Hr & Hy)]. apply (H1 rel); auto. apply Hf; auto.
-    + exfalso. destruct H2 as [H2 _]. destruct H1 as [_ (rel & Hr & Hy)]. apply (H2 rel); auto. apply Hf; auto.
-    + simpl. destruct H1 as [-> _], H2 as [-> _]. auto.
+    destruct (iter_files d [] (portion_files U d) []) as [[es s]|x]; [|contradiction].
+    destruct (iter_files d [] (portion_files U' d) []) as [[es' s']|x']; [|contradiction].
+    simpl.
+    assert (Hse : same_elems es es').
+    { intro e. rewrite H1, H2. split; intros (rel & Hr & Hy); exists rel; split; auto; apply Hf; auto. }
+    apply (run_order_invariant p (depth_sort es) (depth_sort es')).
+    * apply depth_sort_sorted.
+    * apply depth_sort_sorted.
+    * intros e He. apply (proj1 (depth_sort_In _ _)) in He. apply (proj1 (H1 e)) in He. destruct He as (rel & Hr & Hy).
+      eapply yields_parts_nonempty; eauto. unfold portion_files in Hr.
+      destruct (node_at U d); [|contradiction]. eapply walk_nonempty; eauto.
+    * intro e. rewrite !depth_sort_In. apply Hse.
+    * specialize (Hnc es eq_refl). intros x y Hx Hy. apply (proj1 (depth_sort_In _ _)) in Hx. apply (proj1 (depth_sort_In _ _)) in Hy. apply Hnc; auto.
   - simpl. intro k. auto.
 Qed.
 
@@ -1038,10 +1006,11 @@ Definition pkg (es : listing) : node := Dir (("__init__.py", F0) :: es).
 
 (* F1 *)
 Definition U_F1 : universe := [(0, [("aa", pkg [("bar.py", F0); ("bar", Dir [("inner.py", F0)])])])].
-Lemma loaded_importable_refuted_F1 : exists U sps name, any_listing gapL_F1 U = true /\ loaded_importable U sps name = false.
-Proof. exists U_F1, [0], "aa". split; vm_compute; reflexivity. Qed.
+Example loaded_importable_repaired_F1 : loaded_importable U_F1 [0] "aa" = true /\
+  exists M, load false U_F1 [0] "aa" = LOk M /\ lookup_m ["bar"; "inner"] M = None /\ lookup_m ["bar"] M = Some (MFile (0, ["aa"; "bar.py"])).
+Proof. split. vm_compute; reflexivity. eexists. split. vm_compute; reflexivity. split; vm_compute; reflexivity. Qed.
 
-(* F3, F8, F9, F10: namespace packages over two portions *)
+(* F3, F8, F10: namespace packages over two portions (F9 repaired) *)
 Definition U_F3 : universe :=
   [(0, [("aa", Dir [("sub", pkg [("a.py", F0)])])]);
    (1, [("aa", Dir [("sub", Dir [("x.py", F0); ("other", pkg [("z.py", F0)])])])])].
@@ -1057,9 +1026,9 @@ Proof. exists U_F8, [0; 1], "aa". split; vm_compute; reflexivity. Qed.
 Definition U_F9 : universe :=
   [(0, [("aa", Dir [("sub", Dir [("deep", Dir [(("__init__" ++ ext_suffix)%string, F0)])])])]);
    (1, [("aa", Dir [("sub", Dir [("b.py", F0)])])])].
-Lemma namespace_portion_dirs_refuted_F9 :
-  exists U sps name, gaps U sps name = ["F9"] /\ loaded_importable U sps name = false.
-Proof. exists U_F9, [0; 1], "aa". split; vm_compute; reflexivity. Qed.
+Example namespace_portion_dirs_repaired_F9 : loaded_importable U_F9 [0; 1] "aa" = true /\
+  exists M, load false U_F9 [0; 1] "aa" = LOk M /\ lookup_m ["sub"] M = Some (MNs [(0, ["aa"; "sub"]); (1, ["aa"; "sub"])]).
+Proof. split. vm_compute; reflexivity. eexists. split; vm_compute; reflexivity. Qed.
 
 Definition U_F10 : universe :=
   [(0, [("aa", Dir [("sub", Dir [("early.py", F0)])])]); (1, [("aa", Dir [("sub", pkg [("late.py", F0)])])])].
@@ -1067,12 +1036,11 @@ Lemma namespace_first_portion_wins_refuted_F10 :
   exists U sps name, gaps U sps name = ["F10"] /\ loaded_importable U sps name = false.
 Proof. exists U_F10, [0; 1], "aa". split; vm_compute; reflexivity. Qed.
 
-(* F4: loading is not total *)
+(* F4 repaired: a dot-file with a module extension is skipped *)
 Definition U_F4 : universe := [(0, [("aa", pkg [("m.py", F0); (".x.pyi", F0)])])].
-Lemma load_total_refuted_F4 :
-  exists U sps name, any_listing gapL_F4 U = true /\ load false U sps name = LErr "ValueError" /\
-                     exists i l, py_find U name (top_dirs (py_paths U sps)) = PyPkg i l.
-Proof. exists U_F4, [0], "aa". split; [|split]; try (vm_compute; reflexivity). eexists. eexists. vm_compute. reflexivity. Qed.
+Example load_total_repaired_F4 :
+  exists M, load false U_F4 [0] "aa" = LOk M /\ lookup_m ["m"] M = Some (MFile (0, ["aa"; "m.py"])) /\ loaded_importable U_F4 [0] "aa" = true.
+Proof. eexists. split. vm_compute; reflexivity. split; vm_compute; reflexivity. Qed.
 
 (* F5: listing order decides between two stub files of one name *)
 Definition U_F5a : universe := [(0, [("aa", pkg [("r.pyi", F0); ("r.x.pyi", F0)])])].
@@ -1098,19 +1066,19 @@ Proof.
   vm_compute. intro H. specialize (H ["r"]). vm_compute in H. discriminate.
 Qed.
 
-(* F2, F6, F7: .pth handling *)
+(* F6, F7: .pth handling (F2 repaired: sorted order) *)
 Definition pkgdir (m : string) : listing := [("aa", pkg [(m, F0)])].
 Definition U_F2a : universe := [(0, [("a.pth", File false [(false, 2)]); ("b.pth", File false [(false, 1)])]); (1, pkgdir "one.py"); (2, pkgdir "two.py")].
 Definition U_F2b : universe := [(0, [("b.pth", File false [(false, 1)]); ("a.pth", File false [(false, 2)])]); (1, pkgdir "one.py"); (2, pkgdir "two.py")].
-Lemma paths_order_refuted_F2 :
-  perm_universe U_F2a U_F2b /\ gapU_F2_multi U_F2a = true /\
-  g_paths U_F2a [0] = Some [0; 2; 1] /\ g_paths U_F2b [0] = Some [0; 1; 2] /\ py_paths U_F2b [0] = [0; 2; 1] /\
-  ~ same_tree (load false U_F2a [0] "aa") (load false U_F2b [0] "aa").
+Example paths_order_repaired_F2 :
+  perm_universe U_F2a U_F2b /\
+  g_paths U_F2a [0] = Some [0; 2; 1] /\ g_paths U_F2b [0] = Some [0; 2; 1] /\ py_paths U_F2b [0] = [0; 2; 1] /\
+  same_tree (load false U_F2a [0] "aa") (load false U_F2b [0] "aa").
 Proof.
   split. { constructor. split; auto. simpl. apply PL_swap. constructor. split; auto. apply PL_refl.
            constructor. split; auto. apply PL_refl. constructor. }
-  repeat split; try (vm_compute; reflexivity).
-  vm_compute. intro H. specialize (H ["one"]). vm_compute in H. discriminate.
+  split; [vm_compute; reflexivity|]. split; [vm_compute; reflexivity|]. split; [vm_compute; reflexivity|].
+  vm_compute. intro k. reflexivity.
 Qed.
 
 Definition U_F6 : universe := [(0, [("a.pth", File false [(true, 1)])]); (1, pkgdir "m.py")].
@@ -1234,41 +1202,28 @@ Proof.
   - rewrite app_length, total_pth_lines_length. simpl. lia.
 Qed.
 
-Lemma iter_files_err_kind : forall base skip files seen x,
-  iter_files base skip files seen = Err x -> x = "ValueError".
+Lemma iter_portions_total : forall U ds seen, exists es, iter_portions U ds seen = Ok es.
 Proof.
-  induction files as [|rel r IH]; intros seen x H; simpl in H. discriminate.
-  destruct (mem_lstr (removelast rel) skip). eapply IH; eauto.
-  destruct (name_to_yield rel).
-  - eapply IH; eauto.
-  - destruct (iter_files base skip r (seen ++ [removelast rel])) as [[es s]|e] eqn:E; [discriminate|].
-    inversion H; subst. eapply IH; eauto.
-  - destruct (iter_files base skip r seen) as [[es s]|e] eqn:E; [discriminate|].
-    inversion H; subst. eapply IH; eauto.
-  - inversion H. auto.
+  induction ds as [|d r IH]; intros seen; simpl. eauto.
+  destruct (start_dir d) as [d'|]; [|apply IH].
+  destruct (iter_files_total d' seen (portion_files U d') seen) as (es & s & ->).
+  destruct (IH s) as (es' & ->). eauto.
 Qed.
 
-Lemma iter_portions_err_kind : forall U ds seen x, iter_portions U ds seen = Err x -> x = "ValueError".
+(* Static loading is total: the only error left is reading a directory that is called like the package's module file *)
+Theorem load_total : forall insp U sps name e, load insp U sps name = LErr e -> e = "LoadingError".
 Proof.
-  induction ds as [|d r IH]; intros seen x H; simpl in H. discriminate.
-  destruct (start_dir d) as [d'|]; [|eapply IH; eauto].
-  destruct (iter_files d' seen (portion_files U d') seen) as [[es s]|e] eqn:E.
-  - destruct (iter_portions U r s) as [es'|e] eqn:E2; [discriminate|]. inversion H; subst. eapply IH; eauto.
-  - inversion H; subst. eapply iter_files_err_kind; eauto.
+  intros insp U sps name e. unfold load. pose proof (g_paths_fuel_sufficient U sps) as H.
+  destruct (g_paths U sps) as [ps|]; [|congruence].
+  unfold load_found. destruct (g_find U name ps []) as [p st|ds|]; try discriminate.
+  - destruct (node_at U p) as [[a b|l]|]; try (intro H0; inversion H0; reflexivity).
+    unfold iter_regular. destruct (start_dir p) as [d|]; try discriminate.
+    destruct (iter_files_total d [] (portion_files U d) []) as (es & s & ->). discriminate.
+  - destruct (iter_portions_total U ds []) as (es & ->). discriminate.
 Qed.
 
 Corollary load_never_out_of_fuel : forall insp U sps name, load insp U sps name <> LErr "OutOfFuel".
-Proof.
-  intros insp U sps name. unfold load. pose proof (g_paths_fuel_sufficient U sps) as H.
-  destruct (g_paths U sps) as [ps|]; [|congruence].
-  unfold load_found. destruct (g_find U name ps []) as [p st|ds|]; try discriminate.
-  - destruct (node_at U p) as [[a b|l]|]; try discriminate.
-    unfold iter_regular. destruct (start_dir p) as [d|]; try discriminate.
-    destruct (iter_files d [] (portion_files U d) []) as [[es s]|x] eqn:E; try discriminate.
-    apply iter_files_err_kind in E. subst. discriminate.
-  - destruct (iter_portions U ds []) as [es|x] eqn:E; try discriminate.
-    apply iter_portions_err_kind in E. subst. discriminate.
-Qed.
+Proof. intros insp U sps name H. apply load_total in H. discriminate. Qed.
 
 (* ------------------------------------------------------------------------------------------------------------- *)
 (* Part H.  Regular packages: every loaded module is importable by CPython from that file, or is stub-only --
@@ -1424,9 +1379,6 @@ Section Importable.
   Variable es : list entry.
   Hypothesis Hes : forall e, In e es <-> exists rel, In rel (walk [] (Dir L0)) /\ yields D rel e.
   Hypothesis Hnc : no_clash es.
-  (* the shape of finding F1 is absent: nothing is yielded below the name of a plain module file *)
-  Hypothesis Hup : forall m e, In m es -> In e es -> entry_ok m = true ->
-    name_to_yield (e_rel m) = YMod (e_parts m) -> is_proper_prefix (e_parts m) (e_parts e) = false.
 
   Definition Dq (q : list string) : path := (fst D, snd D ++ q).
 
@@ -1538,7 +1490,7 @@ Section Importable.
     intros e q n He Hp. apply Hes in He. destruct He as (rel & Hw & Hy).
     apply (walk_resolves (Dir L0) [] rel Hdn) in Hw. destruct Hw as (q' & fn & Lq' & Hrel & [Hg Hpc] & Hf & Ha).
     simpl in Hrel. unfold yields in Hy.
-    destruct (name_to_yield rel) as [|parts|parts|] eqn:Ey; try contradiction; subst e; simpl in *; split; auto.
+    destruct (name_to_yield rel) as [|parts|parts] eqn:Ey; try contradiction; subst e; simpl in *; split; auto.
     - right. destruct (name_to_yield_init _ _ Ey) as [Hparts Hst]. subst rel. rewrite List.removelast_last in Hparts.
       subst parts q'. rewrite get_node_snoc in Hg.
       destruct (get_node L0 q) as [[a b|Lq]|] eqn:Eq; try discriminate.
@@ -1601,12 +1553,34 @@ Section Importable.
   Lemma reaches_fun : forall q L1 L2, reaches L0 q L1 -> reaches L0 q L2 -> L1 = L2.
   Proof. intros q L1 L2 [H1 _] [H2 _]. congruence. Qed.
 
-  Lemma leaf_agrees : forall q Lq n a,
-    reaches L0 q Lq -> In a es -> entry_ok a = true -> e_parts a = q ++ [n] -> comp_ok n ->
-    (is_pyi a = true -> forall b, In b es -> entry_ok b = true -> e_parts b = q ++ [n] -> is_pyi b = true) ->
-    agrees (MFile (e_abs a)) (py_find U n [Dq q]) = true.
+  (* which file the loader keeps for the name q: the regular candidate if there is one, else a stub *)
+  Definition picked (q : list string) (p : path) : Prop :=
+    (exists a, In a es /\ entry_ok a = true /\ e_parts a = q /\ is_pyi a = false /\ e_abs a = p) \/
+    ((forall b, In b es -> entry_ok b = true -> e_parts b = q -> is_pyi b = true) /\
+     exists a, In a es /\ entry_ok a = true /\ e_parts a = q /\ e_abs a = p).
+
+  Lemma picked_entry : forall q p, picked q p ->
+    exists a, In a es /\ entry_ok a = true /\ e_parts a = q /\ e_abs a = p /\
+              (is_pyi a = true -> forall b, In b es -> entry_ok b = true -> e_parts b = q -> is_pyi b = true).
   Proof.
-    intros q Lq n a Hr Ha Hok Hp Hn Hall.
+    intros q p [(a & H1 & H2 & H3 & H4 & H5)|[Hall (a & H1 & H2 & H3 & H5)]]; exists a; repeat split; auto.
+    intro. congruence.
+  Qed.
+
+  (* a regular candidate for q forces the kept file to be that candidate *)
+  Lemma picked_regular : forall q p e, picked q p -> In e es -> entry_ok e = true -> e_parts e = q -> is_pyi e = false -> p = e_abs e.
+  Proof.
+    intros q p e [(a & H1 & H2 & H3 & H4 & H5)|[Hall _]] He Hok Hp Hn.
+    - subst p. apply Hnc; auto; congruence.
+    - rewrite (Hall e He Hok Hp) in Hn. discriminate.
+  Qed.
+
+  Lemma leaf_agrees : forall q Lq n f,
+    reaches L0 q Lq -> picked (q ++ [n]) f -> comp_ok n ->
+    agrees (MFile f) (py_find U n [Dq q]) = true.
+  Proof.
+    intros q Lq n f Hr Hpick Hn.
+    destruct (picked_entry _ _ Hpick) as (a & Ha & Hok & Hp & Hf0 & Hall). subst f.
     assert (Hdots : existsb has_dot q = false).
     { unfold entry_ok in Hok. apply andb_true_iff in Hok. destruct Hok as [Hd _]. apply negb_true_iff in Hd.
       rewrite Hp in Hd. apply no_dots_app in Hd. tauto. }
@@ -1700,45 +1674,78 @@ Section Importable.
     - rewrite (Hno eq_refl). reflexivity.
   Qed.
 
-  Lemma descend_agrees : forall rest q Lq a,
-    reaches L0 q Lq -> rest <> [] -> In a es -> entry_ok a = true -> e_parts a = q ++ rest ->
+  (* strings: the name before the first dot of  stem ++ ".py" / stem ++ ".pyi" *)
+  Lemma bfd_app_dot : forall a r, before_first_dot (a ++ String "."%char r)%string = before_first_dot a.
+  Proof.
+    induction a as [|c a IH]; intros r; simpl. reflexivity.
+    destruct (is_dot c); auto. f_equal. apply IH.
+  Qed.
+
+  Lemma bfd_nodot : forall a, has_dot a = false -> before_first_dot a = a.
+  Proof.
+    induction a as [|c a IH]; simpl; intro H; auto. apply orb_false_iff in H. destruct H as [H1 H2].
+    rewrite H1. f_equal. auto.
+  Qed.
+
+  (* an entry yielded as a plain module is not kept as an __init__ module *)
+  Lemma ymod_not_init : forall x q m, In x es -> entry_ok x = true -> e_parts x = q ++ [m] ->
+    name_to_yield (e_rel x) = YMod (e_parts x) -> init_path (e_abs x) = false.
+  Proof.
+    intros x q m Hx Hok Hp Hy.
+    destruct (name_to_yield_mod _ _ Hy) as [Hparts Hne].
+    destruct (entry_shape x q m Hx Hp) as [_ [(fn & Lq & Hr & Hf & Hrel & _ & Hst)|(fn & Lq & Lm & _ & _ & _ & _ & _ & Hy2 & _)]];
+      [|rewrite Hy in Hy2; discriminate].
+    unfold init_path, is_init_name, e_abs. simpl. rewrite Hrel, app_assoc, last_last.
+    pose proof (path_suffix_abs x q fn Hrel) as Hsuf.
+    unfold entry_ok in Hok. apply andb_true_iff in Hok. destruct Hok as [Hd Hload]. apply negb_true_iff in Hd.
+    rewrite Hp in Hd. apply no_dots_app in Hd. destruct Hd as [_ Hdm].
+    unfold static_loadable in Hload. rewrite Hsuf in Hload.
+    unfold stem_of in Hst, Hne. rewrite Hrel, last_last in Hst, Hne.
+    rewrite <- (pl_split_app fn).
+    destruct (pl_suffix fn =? ".py") eqn:Epy.
+    - apply String.eqb_eq in Epy. rewrite Epy. change ".py" with (String "."%char "py"). rewrite bfd_app_dot.
+      rewrite Hst, bfd_nodot by auto. apply String.eqb_neq. rewrite <- Hst. auto.
+    - simpl in Hload. apply String.eqb_eq in Hload. rewrite Hload. change ".pyi" with (String "."%char "pyi"). rewrite bfd_app_dot.
+      apply String.eqb_neq. auto.
+  Qed.
+
+  Lemma descend_agrees : forall rest q Lq f,
+    reaches L0 q Lq -> rest <> [] -> picked (q ++ rest) f ->
     (forall c, In c rest -> comp_ok c) ->
     (forall q' m post, q ++ rest = q' ++ m :: post -> post <> [] ->
-                       exists x, In x es /\ entry_ok x = true /\ e_parts x = q' ++ [m]) ->
-    (is_pyi a = true -> forall b, In b es -> entry_ok b = true -> e_parts b = q ++ rest -> is_pyi b = true) ->
-    agrees (MFile (e_abs a)) (py_import U [Dq q] rest) = true.
+                       exists p, init_path p = true /\ picked (q' ++ [m]) p) ->
+    agrees (MFile f) (py_import U [Dq q] rest) = true.
   Proof.
-    induction rest as [|m rest IH]; intros q Lq a Hr Hne Ha Hok Hp Hc Hpre Hall. congruence.
+    induction rest as [|m rest IH]; intros q Lq f Hr Hne Hpick Hc Hpre. congruence.
     destruct rest as [|r0 rest'].
     - change (py_import U [Dq q] [m]) with (py_find U m [Dq q]).
       eapply leaf_agrees; eauto. apply Hc. left. auto.
-    - assert (Hdots : existsb has_dot q = false).
+    - destruct (picked_entry _ _ Hpick) as (a & Ha & Hok & Hp & _ & _).
+      assert (Hdots : existsb has_dot q = false).
       { unfold entry_ok in Hok. apply andb_true_iff in Hok. destruct Hok as [Hd _]. apply negb_true_iff in Hd.
         rewrite Hp, existsb_app in Hd. apply orb_false_iff in Hd. tauto. }
-      destruct (Hpre q m (r0 :: rest') eq_refl) as (x & Hx & Hxok & Hxp). discriminate.
-      assert (Hpp : is_proper_prefix (q ++ [m]) (e_parts a) = true).
-      { rewrite Hp. replace (q ++ m :: r0 :: rest') with ((q ++ [m]) ++ r0 :: rest') by (rewrite <- app_assoc; reflexivity).
-        apply is_proper_prefix_app. discriminate. }
+      destruct (Hpre q m (r0 :: rest') eq_refl) as (p & Hinit & Hpm). discriminate.
+      destruct (picked_entry _ _ Hpm) as (x & Hx & Hxok & Hxp & Hxa & _).
       destruct (entry_shape x q m Hx Hxp) as [_ [(fn & Lq' & Hr' & Hf & Hrel & Hy & Hst)|(fn & Lq' & Lm & Hr' & Hl & Hnpc & Hf & Hrel & Hy & Hst)]].
-      + exfalso. pose proof (Hup x a Hx Ha Hxok Hy) as H. rewrite Hxp in H. congruence.
+      + exfalso. rewrite <- Hxa in Hinit. rewrite (ymod_not_init x q m Hx Hxok Hxp Hy) in Hinit. discriminate.
       + pose proof (reaches_fun _ _ _ Hr Hr'). subst Lq'.
         rewrite (step_descend q Lq m Lm r0 rest' (proj1 Hr) Hl).
-        * apply (IH (q ++ [m]) Lm a); auto.
+        * apply (IH (q ++ [m]) Lm f); auto.
           -- split. rewrite get_node_snoc, (proj1 Hr). auto.
              intro H. apply in_app_or in H. destruct H as [H|[H|[]]]; auto. destruct Hr as [_ Hpc]. auto.
           -- discriminate.
-          -- rewrite Hp, <- app_assoc. reflexivity.
+          -- rewrite <- app_assoc. exact Hpick.
           -- intros c Hcin. apply Hc. right. auto.
           -- intros q' m' post Heq Hpost. apply (Hpre q' m' post); auto. rewrite <- Heq, <- app_assoc. reflexivity.
-          -- intros Hpyi b Hb Hbok Hbp. apply Hall; auto. rewrite Hbp, <- app_assoc. reflexivity.
         * intros _. destruct (has_file (m ++ ".py")%string Lq) eqn:E; auto. exfalso.
-          destruct (module_file_entry q Lq m Hr E (Hc m (or_introl eq_refl)) Hdots) as (e & H1 & H2 & H3 & _ & _ & H6).
-          pose proof (Hup e a H1 Ha H2 H6) as H. rewrite H3 in H. congruence.
+          destruct (module_file_entry q Lq m Hr E (Hc m (or_introl eq_refl)) Hdots) as (e & H1 & H2 & H3 & H4 & H5 & H6).
+          pose proof (picked_regular _ _ e Hpm H1 H2 H3 H4) as Hpe. rewrite Hpe in Hinit.
+          rewrite (ymod_not_init e q m H1 H2 H3 H6) in Hinit. discriminate.
   Qed.
 End Importable.
 
 Lemma chain_prefix : forall E todo cur, chain E cur todo = true ->
-  forall t1 x t2, todo = t1 ++ x :: t2 -> has_cand E (cur ++ t1 ++ [x]) = true.
+  forall t1 x t2, todo = t1 ++ x :: t2 -> init_at E (cur ++ t1 ++ [x]) = true.
 Proof.
   induction todo as [|p r IH]; intros cur H t1 x t2 Heq. destruct t1; discriminate.
   simpl in H. apply andb_true_iff in H. destruct H as [H1 H2].
@@ -1747,9 +1754,15 @@ Proof.
   - specialize (IH (cur ++ [y]) H2 t1 x t2 eq_refl). rewrite <- app_assoc in IH. simpl in IH. auto.
 Qed.
 
+Lemma removelast_app_cons : forall (q : list string) m post, post <> [] ->
+  removelast (q ++ m :: post) = q ++ m :: removelast post.
+Proof.
+  intros q m post H. rewrite removelast_app by discriminate. f_equal.
+  simpl. destruct post; [congruence|reflexivity].
+Qed.
+
 (* Every module the static loader puts below a regular package is the module CPython imports at that dotted name
-   from that file, or is stub-only -- on source-form package trees without the shape of finding F1 and without two
-   files claiming one module name. *)
+   from that file, or is stub-only -- on source-form package trees in which no two files claim one module name. *)
 Theorem loaded_importable_regular :
   forall U D L0 es top k f,
   listing_at U D = Some L0 -> deep_nodup L0 ->
@@ -1758,53 +1771,50 @@ Theorem loaded_importable_regular :
      (forall ns pth, lookup_entry "__init__.py" Lq = Some (File ns pth) -> ns = false)) ->
   (forall e, In e es <-> exists rel, In rel (walk [] (Dir L0)) /\ yields D rel e) ->
   no_clash es ->
-  (forall m e, In m es -> In e es -> entry_ok m = true ->
-               name_to_yield (e_rel m) = YMod (e_parts m) -> is_proper_prefix (e_parts m) (e_parts e) = false) ->
   lookup_m k (run top (depth_sort es)) = Some (MFile f) -> k <> [] ->
   (forall c, In c k -> c <> "" /\ c <> "__init__" /\ c <> "__pycache__") ->
   agrees (MFile f) (py_import U [D] k) = true.
 Proof.
-  intros U D L0 es top k f HD Hdn Hsrc Hes Hnc Hup Hlk Hk Hcomp.
+  intros U D L0 es top k f HD Hdn Hsrc Hes Hnc Hlk Hk Hcomp.
   assert (Hne : forall e, In e (depth_sort es) -> e_parts e <> []).
   { intros e He. apply (proj1 (depth_sort_In _ _)) in He. apply Hes in He. destruct He as (rel & Hw & Hy).
     apply (yields_parts_nonempty D rel e); auto. apply (walk_nonempty (Dir L0) [] rel Hw). }
   destruct (run_spec top (depth_sort es) (depth_sort_sorted es) Hne) as [_ Hspec].
-  rewrite Hspec in Hlk. destruct k as [|k0 kr]; [congruence|]. unfold spec_lookup in Hlk.
-  destruct (chain (depth_sort es) [] (k0 :: kr)) eqn:Hch; [|discriminate].
-  destruct (pickseq (cands (k0 :: kr) (depth_sort es))) as [p|] eqn:Hpick; [|discriminate].
+  rewrite Hspec in Hlk. rewrite spec_lookup_ne in Hlk by auto.
+  destruct (chain (depth_sort es) [] (removelast k)) eqn:Hch; [|discriminate].
+  destruct (pickseq (cands k (depth_sort es))) as [p|] eqn:Hpick; [|discriminate].
   simpl in Hlk. inversion Hlk; subst p. clear Hlk.
-  set (k := k0 :: kr) in *.
-  assert (Hcompat : compat (cands k (depth_sort es))).
-  { intros x y Hx Hy Hp. unfold cands in Hx, Hy. apply filter_In in Hx, Hy.
-    destruct Hx as [Hx Hcx], Hy as [Hy Hcy]. unfold cand in Hcx, Hcy.
-    apply andb_true_iff in Hcx, Hcy. destruct Hcx as [Px Ox], Hcy as [Py Oy].
-    apply lstr_eqb_eq in Px, Py. apply (proj1 (depth_sort_In _ _)) in Hx. apply (proj1 (depth_sort_In _ _)) in Hy.
-    apply Hnc; auto. congruence. }
-  pose proof (pickseq_sound _ _ Hcompat Hpick) as Hrel.
-  assert (Hcand : forall b, In b es -> entry_ok b = true -> e_parts b = k -> In b (cands k (depth_sort es))).
-  { intros b Hb Hbo Hbp. unfold cands. apply filter_In. split. apply depth_sort_In; auto.
-    unfold cand. rewrite Hbp, lstr_eqb_refl, Hbo. reflexivity. }
-  assert (Hget : exists a, In a es /\ entry_ok a = true /\ e_parts a = k /\ e_abs a = f /\
-                 (is_pyi a = true -> forall b, In b es -> entry_ok b = true -> e_parts b = k -> is_pyi b = true)).
-  { destruct Hrel as [(a & Ha & Hap & Hao)|[Hall (a & Ha & Hao)]];
-      (unfold cands in Ha; apply filter_In in Ha; destruct Ha as [Ha Hc]; unfold cand in Hc;
-       apply andb_true_iff in Hc; destruct Hc as [Pa Oa]; apply lstr_eqb_eq in Pa;
-       apply (proj1 (depth_sort_In _ _)) in Ha; exists a; repeat split; auto).
-    intro. congruence. }
-  destruct Hget as (a & Ha & Hok & Hp & Hf & Hall). subst f.
-  assert (Hnodots : forall c, In c k -> has_dot c = false).
-  { intros c Hc. unfold entry_ok in Hok. apply andb_true_iff in Hok. destruct Hok as [Hd _]. apply negb_true_iff in Hd.
-    rewrite Hp in Hd. destruct (has_dot c) eqn:E; auto.
-    assert (existsb has_dot k = true) by (apply existsb_exists; exists c; auto). congruence. }
+  (* from the merge of the candidates to the set-level description *)
+  assert (Hpicked : forall q p, pickseq (cands q (depth_sort es)) = Some p -> picked es q p).
+  { intros q p Hp.
+    assert (Hcompat : compat (cands q (depth_sort es))).
+    { intros x y Hx Hy Hpi. unfold cands in Hx, Hy. apply filter_In in Hx, Hy.
+      destruct Hx as [Hx Hcx], Hy as [Hy Hcy]. unfold cand in Hcx, Hcy.
+      apply andb_true_iff in Hcx, Hcy. destruct Hcx as [Px Ox], Hcy as [Py Oy].
+      apply lstr_eqb_eq in Px, Py. apply (proj1 (depth_sort_In _ _)) in Hx. apply (proj1 (depth_sort_In _ _)) in Hy.
+      apply Hnc; auto. congruence. }
+    assert (Hin : forall a, In a (cands q (depth_sort es)) <-> In a es /\ entry_ok a = true /\ e_parts a = q).
+    { intro a. unfold cands. rewrite filter_In, depth_sort_In. unfold cand. rewrite andb_true_iff, lstr_eqb_eq. tauto. }
+    destruct (pickseq_sound _ _ Hcompat Hp) as [(a & Ha & Hap & Hao)|[Hall (a & Ha & Hao)]].
+    - left. apply Hin in Ha. destruct Ha as (H1 & H2 & H3). exists a. auto.
+    - right. split.
+      + intros b Hb Hbo Hbp. apply Hall. apply Hin. auto.
+      + apply Hin in Ha. destruct Ha as (H1 & H2 & H3). exists a. auto. }
   replace D with (Dq D []) by (unfold Dq; destruct D; simpl; rewrite app_nil_r; reflexivity).
-  apply (descend_agrees U D L0 HD Hdn Hsrc es Hes Hnc Hup k [] L0 a); auto.
+  apply (descend_agrees U D L0 HD Hdn Hsrc es Hes Hnc k [] L0 f); auto.
   - split; simpl; auto.
-  - intros c Hc. destruct (Hcomp c Hc) as (H1 & H2 & H3). unfold comp_ok. repeat split; auto.
+  - intros c Hc.
+    destruct (picked_entry es _ _ (Hpicked k f Hpick)) as (a & Ha & Hok & Hp & _ & _).
+    assert (has_dot c = false).
+    { unfold entry_ok in Hok. apply andb_true_iff in Hok. destruct Hok as [Hd _]. apply negb_true_iff in Hd.
+      rewrite Hp in Hd. destruct (has_dot c) eqn:E; auto.
+      assert (existsb has_dot k = true) by (apply existsb_exists; exists c; auto). congruence. }
+    destruct (Hcomp c Hc) as (H1 & H2 & H3). unfold comp_ok. repeat split; auto.
   - intros q' m post Heq Hpost. simpl in Heq.
-    pose proof (chain_prefix _ _ _ Hch q' m post Heq) as Hh. simpl in Hh.
-    unfold has_cand in Hh. apply existsb_exists in Hh. destruct Hh as (x & Hx & Hc).
-    unfold cand in Hc. apply andb_true_iff in Hc. destruct Hc as [Px Ox]. apply lstr_eqb_eq in Px.
-    exists x. split. apply (proj1 (depth_sort_In _ _)) in Hx. auto. auto.
+    assert (Hrl : removelast k = q' ++ m :: removelast post) by (rewrite Heq; apply removelast_app_cons; auto).
+    pose proof (chain_prefix _ _ _ Hch q' m (removelast post) Hrl) as Hi. simpl in Hi.
+    unfold init_at in Hi. destruct (pickseq (cands (q' ++ [m]) (depth_sort es))) as [p|] eqn:Ep; [|discriminate].
+    exists p. split; auto.
 Qed.
 
 (* ------------------------------------------------------------------------------------------------------------- *)
@@ -1869,15 +1879,6 @@ Proof.
     apply srcb_sound; auto. apply nodupb_sound. auto.
 Qed.
 
-Lemma upb_sound : forall es, upb es = true ->
-  forall m e, In m es -> In e es -> entry_ok m = true ->
-              name_to_yield (e_rel m) = YMod (e_parts m) -> is_proper_prefix (e_parts m) (e_parts e) = false.
-Proof.
-  intros es H m e Hm He Hok Hy. unfold upb in H. rewrite forallb_forall in H. specialize (H m Hm).
-  rewrite forallb_forall in H. specialize (H e He). unfold yields_modb in H. rewrite Hok, Hy, lstr_eqb_refl in H. simpl in H.
-  apply negb_true_iff in H. auto.
-Qed.
-
 Theorem loaded_importable_regular_checked :
   forall U i dirc st M,
   in_domain U i dirc = true ->
@@ -1889,7 +1890,7 @@ Proof.
   unfold in_domain in Hdom.
   destruct (node_at U (i, dirc)) as [[a b|L0]|] eqn:En; try discriminate.
   destruct (iter_regular U (i, dirc ++ ["__init__.py"])) as [es|x] eqn:Ei; try discriminate.
-  apply andb_true_iff in Hdom. destruct Hdom as [Hdom Hup]. apply andb_true_iff in Hdom. destruct Hdom as [Htree Hnc].
+  apply andb_true_iff in Hdom. destruct Hdom as [Htree Hnc].
   destruct (tree_okb_hyps L0 Htree) as [Hdn Hsrc].
   unfold load_found in Hload. rewrite Ei in Hload.
   destruct (node_at U (i, dirc ++ ["__init__.py"])) as [[a b|?]|]; try discriminate.
@@ -1900,11 +1901,10 @@ Proof.
     rewrite List.removelast_last in Ei.
     pose proof (iter_files_noskip (i, dirc) (portion_files U (i, dirc)) []) as Hn.
     destruct (iter_files (i, dirc) [] (portion_files U (i, dirc)) []) as [[es' s]|x]; try discriminate.
-    inversion Ei; subst es'. destruct Hn as [_ Hn]. unfold portion_files in Hn. rewrite En in Hn. auto. }
+    inversion Ei; subst es'. unfold portion_files in Hn. rewrite En in Hn. auto. }
   apply (loaded_importable_regular U (i, dirc) L0 es (i, dirc ++ ["__init__.py"]) k f); auto.
   - unfold listing_at. rewrite En. reflexivity.
   - apply no_clashb_sound. auto.
-  - apply upb_sound. auto.
   - destruct k; [discriminate|congruence].
   - intros c Hc. rewrite forallb_forall in Hk2. specialize (Hk2 c Hc).
     apply andb_true_iff in Hk2. destruct Hk2 as [Hk2 H3]. apply andb_true_iff in Hk2. destruct Hk2 as [H1 H2].
